@@ -82,9 +82,15 @@ class ASPRule(ASPElement):
             body = str(self.body)
             if self.head:
                 rule += f' '
-                for elem in body.split(','):
-                    if elem.strip().startswith('&tel'):
-                        body = body.replace(elem, f'not not {elem.strip()}')
+                # a temporal formula in the body of a rule with a head is written 'not not &tel {...}'; the body is
+                # assembled element by element (replacing inside the printed text doubled the prefix when the same
+                # formula occurred twice); no blank follows the comma before such a formula, as before
+                body = ''
+                for elem in [str(x) for x in self.body.conjunction if str(x)]:
+                    if elem.startswith('&tel'):
+                        body += (',' if body else '') + f'not not {elem}'
+                    else:
+                        body += (', ' if body else '') + elem
             rule += f':- {body}'
         rule += '.\n'
         return rule
